@@ -38,9 +38,6 @@ theorem mine_snoc_same (t : Nat) (log : List (Entry D R)) (e : Entry D R) (h : e
 theorem mine_snoc_other (t : Nat) (log : List (Entry D R)) (e : Entry D R) (h : e.tid ≠ t) :
     mine t (log ++ [e]) = mine t log := by simp [mine, List.filter_append, h]
 
-/-- the entries whose receiver is wrapper `m` -/
-def onRecv (m : Nat) (log : List (Entry D R)) : List (Entry D R) := log.filter (fun e => e.call.recv == m)
-
 theorem onRecv_snoc_same (m : Nat) (log : List (Entry D R)) (e : Entry D R) (h : e.call.recv = m) :
     onRecv m (log ++ [e]) = onRecv m log ++ [e] := by simp [onRecv, List.filter_append, h]
 
@@ -361,10 +358,502 @@ theorem not_deadlocked_of_inv {n : Nat} {s : State D R} (inv : DfInv n s) : dead
     · have hen := enabled_busy htodo (Or.inr (Or.inr (Or.inl hpc))); rw [hb] at hen; cases hen
     · have hen := enabled_busy htodo (Or.inr (Or.inr (Or.inr hpc))); rw [hb] at hen; cases hen
 
+/-! ### delegates that call ANOTHER wrapper while the receiver's lock is held (`x.Each(func(v){ y.M(v) })`)
+
+In the LTS this is the call shape `snapshot = false`, `operand = some y`, `cbs` = number of nested calls: `start → held k`,
+then `k` rounds `held (j+1) → inOp j → held j` (acquire and release `y`'s mutex while `x`'s is held). It is hold-and-wait,
+so it is deadlock free only under a guard: `y ≠ x` (a delegate calling `x` itself blocks forever) and either one thread
+or a global lock order. -/
+
+/-- a nested call on ANOTHER wrapper -/
+def Nested (c : Call D R) : Prop := c.snapshot = false ∧ ∃ o, c.operand = some o ∧ o ≠ c.recv
+
+def InBodyN (pc : Pc) : Prop := (∃ k, pc = .held k) ∨ (∃ k, pc = .inOp k) ∨ pc = .readDone ∨ pc = .written
+
+/-- thread with program counter `pc` in call `c` holds mutex `m` -/
+def Holds (pc : Pc) (c : Call D R) (m : Nat) : Prop :=
+  (pc = .snapHeld ∧ c.snapTarget = some m ∧ c.opLocked = true) ∨
+  (InBodyN pc ∧ c.recv = m ∧ c.locked = true) ∨
+  ((∃ k, pc = .inOp k) ∧ c.operand = some m ∧ c.opLocked = true)
+
+structure NInv (n : Nat) (s : State D R) : Prop where
+  ok : ∀ t, ∀ c ∈ (s.th t).todo, (Live c ∨ Nested c) ∧ (∀ o, c.snapshot = false → c.operand = some o → c.recv < o ∨ n ≤ 1)
+  idle : ∀ t, n ≤ t → (s.th t).todo = []
+  owner : ∀ m t, s.holder m = some t → ∃ c rest, (s.th t).todo = c :: rest ∧ Holds (s.th t).pc c m
+  /-- only nested calls make callback rounds -/
+  shape : ∀ t c rest, (s.th t).todo = c :: rest → ((∃ k, (s.th t).pc = .held (k + 1)) ∨ (∃ k, (s.th t).pc = .inOp k)) → Nested c
+
+theorem nInv_init (n : Nat) (d0 : Nat → D) (dflt : D) (progs : Nat → List (Call D R))
+    (hok : ∀ t, ∀ c ∈ progs t, (Live c ∨ Nested c) ∧ (∀ o, c.snapshot = false → c.operand = some o → c.recv < o ∨ n ≤ 1))
+    (hidle : ∀ t, n ≤ t → progs t = []) :
+    NInv n (init d0 dflt progs) where
+  ok := hok
+  idle := hidle
+  owner := fun m t h => by simp [init] at h
+  shape := fun t c rest _ h => by rcases h with ⟨k, h⟩ | ⟨k, h⟩ <;> simp [init] at h
+
+theorem rounds_pos_nested {c : Call D R} (hok : Live c ∨ Nested c) {k : Nat} (h : c.rounds = k + 1) : Nested c := by
+  rcases hok with hl | hn
+  · rw [hl.rounds] at h; cases h
+  · exact hn
+
+theorem nInv_frame {n : Nat} {s : State D R} {t : Nat} {c : Call D R} {rest : List (Call D R)}
+    (inv : NInv n s) (htodo : (s.th t).todo = c :: rest)
+    (T' : Thread D R) (h' : Nat → Option Nat) (dat : Nat → D) (lg : List (Entry D R))
+    (hsub : ∀ c' ∈ T'.todo, c' ∈ (s.th t).todo)
+    (hothers : ∀ m t', t' ≠ t → h' m = some t' → s.holder m = some t')
+    (hself : ∀ m, h' m = some t → ∃ c1 rest1, T'.todo = c1 :: rest1 ∧ Holds T'.pc c1 m)
+    (hshape : ∀ c1 rest1, T'.todo = c1 :: rest1 → ((∃ k, T'.pc = .held (k + 1)) ∨ (∃ k, T'.pc = .inOp k)) → Nested c1) :
+    NInv n { holder := h', data := dat, th := upd s.th t T', log := lg } := by
+  refine ⟨?_, ?_, ?_, ?_⟩
+  · intro t' c' hc'
+    by_cases e : t' = t
+    · subst e; simp only [upd_same] at hc'; exact inv.ok t' c' (hsub c' hc')
+    · simp only [upd_other _ _ e] at hc'; exact inv.ok t' c' hc'
+  · intro t' hn
+    by_cases e : t' = t
+    · subst e; have := inv.idle t' hn; rw [htodo] at this; cases this
+    · simp only [upd_other _ _ e]; exact inv.idle t' hn
+  · intro m t' hm
+    by_cases e : t' = t
+    · subst e; simp only [upd_same]; exact hself m hm
+    · simp only [upd_other _ _ e]; exact inv.owner m t' (hothers m t' e hm)
+  · intro t' c1 rest1 h1 h2
+    by_cases e : t' = t
+    · subst e; simp only [upd_same] at h1 h2; exact hshape c1 rest1 h1 h2
+    · simp only [upd_other _ _ e] at h1 h2; exact inv.shape t' c1 rest1 h1 h2
+
+/-- at `start`/`snapped` a thread holds nothing -/
+theorem holds_nothing {n : Nat} {s : State D R} (inv : NInv n s) {t : Nat}
+    (hpc : (s.th t).pc = .start ∨ (s.th t).pc = .snapped) (m : Nat) : s.holder m ≠ some t := by
+  intro h
+  obtain ⟨c, rest, _, h1 | h1 | h1⟩ := inv.owner m t h
+  · rcases hpc with h2 | h2 <;> rw [h2] at h1 <;> cases h1.1
+  · rcases hpc with h2 | h2 <;> rw [h2] at h1 <;>
+      rcases h1.1 with ⟨k, h3⟩ | ⟨k, h3⟩ | h3 | h3 <;> cases h3
+  · rcases hpc with h2 | h2 <;> rw [h2] at h1 <;> obtain ⟨⟨k, h3⟩, _⟩ := h1 <;> cases h3
+
+theorem nInv_acquire {n : Nat} {s s' : State D R} {t : Nat} {c : Call D R} {rest : List (Call D R)}
+    (inv : NInv n s) (htodo : (s.th t).todo = c :: rest)
+    (hpc : (s.th t).pc = .start ∨ (s.th t).pc = .snapped)
+    (hs : acquireRecv s t (s.th t) c = some s') : NInv n s' := by
+  have hok := (inv.ok t c (by rw [htodo]; exact List.mem_cons_self)).1
+  have hshape : ∀ c1 rest1, (s.th t).todo = c1 :: rest1 →
+      ((∃ k, Pc.held c.rounds = .held (k + 1)) ∨ (∃ k, Pc.held c.rounds = .inOp k)) → Nested c1 := by
+    intro c1 rest1 h1 h2
+    rw [htodo] at h1; injection h1 with hc _; subst hc
+    rcases h2 with ⟨k, h2⟩ | ⟨k, h2⟩
+    · injection h2 with h2; exact rounds_pos_nested hok h2
+    · cases h2
+  rcases acquireRecv_some hs with ⟨hl, hfree, rfl⟩ | ⟨hl, rfl⟩
+  · refine nInv_frame inv htodo _ _ _ _ (fun c' hc' => hc') ?_ ?_ hshape
+    · intro m t' hne hm
+      by_cases em : m = c.recv
+      · subst em; simp only [upd_same] at hm; exact absurd (Option.some.inj hm).symm hne
+      · simpa only [upd_other _ _ em] using hm
+    · intro m hm
+      by_cases em : m = c.recv
+      · subst em; exact ⟨c, rest, htodo, Or.inr (Or.inl ⟨Or.inl ⟨_, rfl⟩, rfl, hl⟩)⟩
+      · simp only [upd_other _ _ em] at hm; exact absurd hm (holds_nothing inv hpc m)
+  · refine nInv_frame inv htodo _ _ _ _ (fun c' hc' => hc') (fun m t' _ hm => hm) ?_ hshape
+    intro m hm; exact absurd hm (holds_nothing inv hpc m)
+
+theorem nInv_step {n : Nat} {s s' : State D R} {t : Nat} (inv : NInv n s) (hs : step s t = some s') : NInv n s' := by
+  unfold step at hs
+  simp only at hs
+  split at hs
+  · cases hs
+  · rename_i c rest htodo
+    have hok := inv.ok t c (by rw [htodo]; exact List.mem_cons_self)
+    -- what `t` holds, in terms of its current call
+    have mine : ∀ m, s.holder m = some t → Holds (s.th t).pc c m := by
+      intro m h
+      obtain ⟨c1, rest1, h0, h1⟩ := inv.owner m t h
+      rw [htodo] at h0; injection h0 with hc _; subst hc; exact h1
+    split at hs
+    · -- start
+      rename_i hpc
+      split at hs
+      · rename_i o hsnap
+        split at hs
+        · rename_i hol
+          split at hs
+          · rename_i hfree
+            have hs := Option.some.inj hs
+            subst hs
+            refine nInv_frame inv htodo _ _ _ _ (fun c' hc' => hc') ?_ ?_ ?_
+            · intro m t' hne hm
+              by_cases em : m = o
+              · subst em; simp only [upd_same] at hm; exact absurd (Option.some.inj hm).symm hne
+              · simpa only [upd_other _ _ em] using hm
+            · intro m hm
+              by_cases em : m = o
+              · subst em; exact ⟨c, rest, htodo, Or.inl ⟨rfl, hsnap, hol⟩⟩
+              · simp only [upd_other _ _ em] at hm; exact absurd hm (holds_nothing inv (Or.inl hpc) m)
+            · intro c1 rest1 _ h2; rcases h2 with ⟨k, h2⟩ | ⟨k, h2⟩ <;> cases h2
+          · cases hs
+        · have hs := Option.some.inj hs
+          subst hs
+          refine nInv_frame inv htodo _ _ _ _ (fun c' hc' => hc') (fun m t' _ hm => hm) ?_ ?_
+          · intro m hm; exact absurd hm (holds_nothing inv (Or.inl hpc) m)
+          · intro c1 rest1 _ h2; rcases h2 with ⟨k, h2⟩ | ⟨k, h2⟩ <;> cases h2
+      · exact nInv_acquire inv htodo (Or.inl hpc) hs
+    · -- snapHeld: release the operand
+      rename_i hpc
+      have hmine : ∀ m, s.holder m = some t → c.snapTarget = some m ∧ c.opLocked = true := by
+        intro m h
+        rcases mine m h with h1 | h1 | h1
+        · exact h1.2
+        · rw [hpc] at h1; rcases h1.1 with ⟨k, h3⟩ | ⟨k, h3⟩ | h3 | h3 <;> cases h3
+        · rw [hpc] at h1; obtain ⟨⟨k, h3⟩, _⟩ := h1; cases h3
+      split at hs
+      · rename_i o hsnap
+        have hs := Option.some.inj hs
+        subst hs
+        refine nInv_frame inv htodo _ _ _ _ (fun c' hc' => hc') ?_ ?_ ?_
+        · intro m t' hne hm
+          split at hm
+          · by_cases em : m = o
+            · subst em; simp [upd_same] at hm
+            · simpa only [upd_other _ _ em] using hm
+          · exact hm
+        · intro m hm
+          exfalso
+          split at hm
+          · by_cases em : m = o
+            · subst em; simp [upd_same] at hm
+            · simp only [upd_other _ _ em] at hm
+              have := (hmine m hm).1; rw [hsnap] at this; exact em (Option.some.inj this).symm
+          · rename_i hol; exact hol (hmine m hm).2
+        · intro c1 rest1 _ h2; rcases h2 with ⟨k, h2⟩ | ⟨k, h2⟩ <;> cases h2
+      · rename_i hsnap
+        have hs := Option.some.inj hs
+        subst hs
+        refine nInv_frame inv htodo _ _ _ _ (fun c' hc' => hc') (fun m t' _ hm => hm) ?_ ?_
+        · intro m hm
+          exfalso
+          have := (hmine m hm).1; rw [hsnap] at this; cases this
+        · intro c1 rest1 _ h2; rcases h2 with ⟨k, h2⟩ | ⟨k, h2⟩ <;> cases h2
+    · -- snapped
+      rename_i hpc
+      exact nInv_acquire inv htodo (Or.inr hpc) hs
+    · -- held (k+1): the delegate calls the other wrapper: acquire its mutex
+      rename_i k hpc
+      have hn : Nested c := inv.shape t c rest htodo (Or.inl ⟨k, hpc⟩)
+      obtain ⟨hsnapF, o, hop, hne⟩ := hn
+      have keepRecv : ∀ m, s.holder m = some t → c.recv = m ∧ c.locked = true := by
+        intro m h
+        rcases mine m h with h1 | h1 | h1
+        · rw [hpc] at h1; cases h1.1
+        · exact h1.2
+        · rw [hpc] at h1; obtain ⟨⟨k', h3⟩, _⟩ := h1; cases h3
+      rw [hop] at hs
+      simp only at hs
+      split at hs
+      · rename_i hol
+        split at hs
+        · rename_i hfree
+          have hs := Option.some.inj hs
+          subst hs
+          refine nInv_frame inv htodo _ _ _ _ (fun c' hc' => hc') ?_ ?_ ?_
+          · intro m t' hne' hm
+            by_cases em : m = o
+            · subst em; simp only [upd_same] at hm; exact absurd (Option.some.inj hm).symm hne'
+            · simpa only [upd_other _ _ em] using hm
+          · intro m hm
+            by_cases em : m = o
+            · subst em; exact ⟨c, rest, htodo, Or.inr (Or.inr ⟨⟨k, rfl⟩, hop, hol⟩)⟩
+            · simp only [upd_other _ _ em] at hm
+              exact ⟨c, rest, htodo, Or.inr (Or.inl ⟨Or.inr (Or.inl ⟨k, rfl⟩), keepRecv m hm⟩)⟩
+          · intro c1 rest1 h1 _
+            rw [htodo] at h1; injection h1 with hc _; subst hc
+            exact ⟨hsnapF, o, hop, hne⟩
+        · cases hs
+      · have hs := Option.some.inj hs
+        subst hs
+        refine nInv_frame inv htodo _ _ _ _ (fun c' hc' => hc') (fun m t' _ hm => hm) ?_ ?_
+        · intro m hm
+          exact ⟨c, rest, htodo, Or.inr (Or.inl ⟨Or.inr (Or.inl ⟨k, rfl⟩), keepRecv m hm⟩)⟩
+        · intro c1 rest1 h1 _
+          rw [htodo] at h1; injection h1 with hc _; subst hc
+          exact ⟨hsnapF, o, hop, hne⟩
+    · -- inOp: release the other wrapper's mutex
+      rename_i k hpc
+      have hn : Nested c := inv.shape t c rest htodo (Or.inr ⟨k, hpc⟩)
+      obtain ⟨hsnapF, o, hop, hne⟩ := hn
+      rw [hop] at hs
+      simp only at hs
+      have hs := Option.some.inj hs
+      subst hs
+      refine nInv_frame inv htodo _ _ _ _ (fun c' hc' => hc') ?_ ?_ ?_
+      · intro m t' hne' hm
+        split at hm
+        · by_cases em : m = o
+          · subst em; simp [upd_same] at hm
+          · simpa only [upd_other _ _ em] using hm
+        · exact hm
+      · intro m hm
+        have hold : s.holder m = some t ∧ (c.opLocked = true → m ≠ o) := by
+          split at hm
+          · by_cases em : m = o
+            · subst em; simp [upd_same] at hm
+            · simp only [upd_other _ _ em] at hm; exact ⟨hm, fun _ => em⟩
+          · rename_i hol; exact ⟨hm, fun h => absurd h hol⟩
+        rcases mine m hold.1 with h1 | h1 | h1
+        · rw [hpc] at h1; cases h1.1
+        · exact ⟨c, rest, htodo, Or.inr (Or.inl ⟨Or.inl ⟨k, rfl⟩, h1.2⟩)⟩
+        · exfalso
+          have : m = o := by have := h1.2.1; rw [hop] at this; exact (Option.some.inj this).symm
+          exact hold.2 h1.2.2 this
+      · intro c1 rest1 h1 h2
+        rw [htodo] at h1; injection h1 with hc _; subst hc
+        exact ⟨hsnapF, o, hop, hne⟩
+    · -- held 0: read
+      rename_i hpc
+      have hs := Option.some.inj hs
+      subst hs
+      refine nInv_frame inv htodo _ _ _ _ (fun c' hc' => hc') (fun m t' _ hm => hm) ?_ ?_
+      · intro m hm
+        rcases mine m hm with h1 | h1 | h1
+        · rw [hpc] at h1; cases h1.1
+        · exact ⟨c, rest, htodo, Or.inr (Or.inl ⟨Or.inr (Or.inr (Or.inl rfl)), h1.2⟩)⟩
+        · rw [hpc] at h1; obtain ⟨⟨k', h3⟩, _⟩ := h1; cases h3
+      · intro c1 rest1 _ h2; rcases h2 with ⟨k, h2⟩ | ⟨k, h2⟩ <;> cases h2
+    · -- readDone: write
+      rename_i hpc
+      have hs := Option.some.inj hs
+      subst hs
+      refine nInv_frame inv htodo _ _ _ _ (fun c' hc' => hc') (fun m t' _ hm => hm) ?_ ?_
+      · intro m hm
+        rcases mine m hm with h1 | h1 | h1
+        · rw [hpc] at h1; cases h1.1
+        · exact ⟨c, rest, htodo, Or.inr (Or.inl ⟨Or.inr (Or.inr (Or.inr rfl)), h1.2⟩)⟩
+        · rw [hpc] at h1; obtain ⟨⟨k', h3⟩, _⟩ := h1; cases h3
+      · intro c1 rest1 _ h2; rcases h2 with ⟨k, h2⟩ | ⟨k, h2⟩ <;> cases h2
+    · -- written: release the receiver
+      rename_i hpc
+      have hs := Option.some.inj hs
+      subst hs
+      refine nInv_frame inv htodo _ _ _ _ (fun c' hc' => by rw [htodo]; exact List.mem_cons_of_mem _ hc') ?_ ?_ ?_
+      · intro m t' hne hm
+        split at hm
+        · by_cases em : m = c.recv
+          · subst em; simp [upd_same] at hm
+          · simpa only [upd_other _ _ em] using hm
+        · exact hm
+      · intro m hm
+        exfalso
+        have hold : s.holder m = some t ∧ (c.locked = true → m ≠ c.recv) := by
+          split at hm
+          · by_cases em : m = c.recv
+            · subst em; simp [upd_same] at hm
+            · simp only [upd_other _ _ em] at hm; exact ⟨hm, fun _ => em⟩
+          · rename_i hl; exact ⟨hm, fun h => absurd h hl⟩
+        rcases mine m hold.1 with h1 | h1 | h1
+        · rw [hpc] at h1; cases h1.1
+        · exact hold.2 h1.2.2 h1.2.1.symm
+        · rw [hpc] at h1; obtain ⟨⟨k', h3⟩, _⟩ := h1; cases h3
+      · intro c1 rest1 _ h2; rcases h2 with ⟨k, h2⟩ | ⟨k, h2⟩ <;> simp at h2
+
+theorem nInv_reach {n : Nat} {d0 : Nat → D} {dflt : D} {progs : Nat → List (Call D R)}
+    (hok : ∀ t, ∀ c ∈ progs t, (Live c ∨ Nested c) ∧ (∀ o, c.snapshot = false → c.operand = some o → c.recv < o ∨ n ≤ 1))
+    (hidle : ∀ t, n ≤ t → progs t = [])
+    {s : State D R} (hr : Reach (init d0 dflt progs) s) : NInv n s := by
+  induction hr with
+  | refl => exact nInv_init n d0 dflt progs hok hidle
+  | step t _ hs ih => exact nInv_step ih hs
+
+/-- a blocked thread with work waits for a mutex that somebody holds -/
+theorem blocked_waits {s : State D R} {t : Nat} {c : Call D R} {rest : List (Call D R)}
+    (htodo : (s.th t).todo = c :: rest) (hb : step s t = none) :
+    ∃ m h, s.holder m = some h ∧
+      ((((s.th t).pc = .start ∨ (s.th t).pc = .snapped) ∧ (m = c.recv ∨ c.snapTarget = some m)) ∨
+       ((∃ k, (s.th t).pc = .held (k + 1)) ∧ c.operand = some m)) := by
+  have acq : acquireRecv s t (s.th t) c = none → ∃ h, s.holder c.recv = some h := by
+    intro h
+    unfold acquireRecv at h
+    split at h
+    · split at h
+      · cases h
+      · rename_i h' hown; exact ⟨h', hown⟩
+    · cases h
+  unfold step at hb
+  simp only [htodo] at hb
+  split at hb
+  · rename_i hpc
+    split at hb
+    · rename_i o hsnap
+      split at hb
+      · split at hb
+        · cases hb
+        · rename_i h' hown; exact ⟨o, h', hown, Or.inl ⟨Or.inl hpc, Or.inr hsnap⟩⟩
+      · cases hb
+    · obtain ⟨h', hown⟩ := acq hb; exact ⟨c.recv, h', hown, Or.inl ⟨Or.inl hpc, Or.inl rfl⟩⟩
+  · split at hb <;> cases hb
+  · rename_i hpc
+    obtain ⟨h', hown⟩ := acq hb; exact ⟨c.recv, h', hown, Or.inl ⟨Or.inr hpc, Or.inl rfl⟩⟩
+  · rename_i k hpc
+    split at hb
+    · cases hb
+    · rename_i o hop
+      split at hb
+      · split at hb
+        · cases hb
+        · rename_i h' hown; exact ⟨o, h', hown, Or.inr ⟨⟨k, hpc⟩, hop⟩⟩
+      · cases hb
+  · split at hb <;> cases hb
+  · cases hb
+  · cases hb
+  · cases hb
+
+/-- in a deadlocked state the holder of a wanted mutex is itself stuck in a delegate: it holds the mutex as its RECEIVER
+and waits for the OTHER wrapper of its nested call -/
+theorem holder_stuck {n : Nat} {s : State D R} (inv : NInv n s) {m h : Nat} (hown : s.holder m = some h)
+    (hb : step s h = none) :
+    ∃ c rest o h', (s.th h).todo = c :: rest ∧ c.recv = m ∧ Nested c ∧ c.operand = some o ∧ o ≠ m ∧ s.holder o = some h' := by
+  obtain ⟨c, rest, htodo, hh⟩ := inv.owner m h hown
+  obtain ⟨m', h', hown', hw⟩ := blocked_waits htodo hb
+  rcases hw with ⟨hpc, _⟩ | ⟨⟨k, hpc⟩, hop⟩
+  · exact absurd hown (holds_nothing inv hpc m)
+  · have hn := inv.shape h c rest htodo (Or.inl ⟨k, hpc⟩)
+    rcases hh with h1 | h1 | h1
+    · rw [hpc] at h1; cases h1.1
+    · obtain ⟨_, o, hop', hne⟩ := hn
+      rw [hop] at hop'; cases hop'
+      exact ⟨c, rest, m', h', htodo, h1.2.1, inv.shape h c rest htodo (Or.inl ⟨k, hpc⟩), hop, by rw [← h1.2.1]; exact hne, hown'⟩
+    · rw [hpc] at h1; obtain ⟨⟨k', h3⟩, _⟩ := h1; cases h3
+
+theorem unfinished_lt {n : Nat} {s : State D R} (inv : NInv n s) {t : Nat} {c : Call D R} {rest : List (Call D R)}
+    (h : (s.th t).todo = c :: rest) : t < n := by
+  rcases Nat.lt_or_ge t n with h' | h'
+  · exact h'
+  · have := inv.idle t h'; rw [h] at this; cases this
+
+/-- one thread: a delegate may call any OTHER wrapper, in any direction -/
+theorem not_deadlocked_single {s : State D R} (inv : NInv 1 s) : deadlocked 1 s = false := by
+  cases hd : deadlocked 1 s
+  · rfl
+  · exfalso
+    simp only [deadlocked, Bool.and_eq_true, List.any_eq_true, List.all_eq_true, List.mem_range] at hd
+    obtain ⟨⟨t, htn, hunf⟩, hall⟩ := hd
+    have ht0 : t = 0 := by omega
+    subst ht0
+    simp only [unfinished, Bool.not_eq_true', List.isEmpty_eq_false_iff] at hunf
+    obtain ⟨c, rest, htodo⟩ := List.exists_cons_of_ne_nil hunf
+    have hb := hall 0 htn
+    simp only [blocked, Option.isNone_iff_eq_none] at hb
+    obtain ⟨m, h, hown, _⟩ := blocked_waits htodo hb
+    obtain ⟨c', rest', hh⟩ := inv.owner m h hown
+    have hh0 : h = 0 := by have := unfinished_lt inv hh.1; omega
+    subst hh0
+    obtain ⟨c1, rest1, o, h', h1, hrecv, _, hop, hne, hown'⟩ := holder_stuck inv hown hb
+    obtain ⟨c2, rest2, hh2⟩ := inv.owner o h' hown'
+    have hh'0 : h' = 0 := by have := unfinished_lt inv hh2.1; omega
+    subst hh'0
+    -- thread 0 is at `held (k+1)`: it holds only its receiver `m`, not `o`
+    obtain ⟨m2, h2, hown2, hw⟩ := blocked_waits h1 hb
+    rcases hw with ⟨hpc, _⟩ | ⟨⟨k, hpc⟩, hop2⟩
+    · exact absurd hown (holds_nothing inv hpc m)
+    · rw [h1] at hh2; obtain ⟨hc, _⟩ := hh2; injection hc with hc _; subst hc
+      rename_i hh2'
+      rcases hh2' with g | g | g
+      · rw [hpc] at g; cases g.1
+      · exact hne (hrecv ▸ g.2.1).symm
+      · rw [hpc] at g; obtain ⟨⟨k', g3⟩, _⟩ := g; cases g3
+
+theorem exists_max_lt (n : Nat) (f : Nat → Nat) (P : Nat → Prop) :
+    (∃ t, t < n ∧ P t) → ∃ t, t < n ∧ P t ∧ ∀ u, u < n → P u → f u ≤ f t := by
+  induction n with
+  | zero => rintro ⟨t, ht, _⟩; omega
+  | succ n ih =>
+    rintro ⟨t, ht, hp⟩
+    by_cases hex : ∃ t, t < n ∧ P t
+    · obtain ⟨m, hm, hpm, hmax⟩ := ih hex
+      by_cases hn : P n ∧ f m < f n
+      · refine ⟨n, by omega, hn.1, ?_⟩
+        intro u hu hpu
+        by_cases e : u = n
+        · subst e; exact Nat.le_refl _
+        · have := hmax u (by omega) hpu; omega
+      · refine ⟨m, by omega, hpm, ?_⟩
+        intro u hu hpu
+        by_cases e : u = n
+        · subst e
+          rcases Classical.em (f m < f u) with h | h
+          · exact absurd ⟨hpu, h⟩ hn
+          · omega
+        · exact hmax u (by omega) hpu
+    · have : t = n := by
+        rcases Nat.lt_or_ge t n with h | h
+        · exact absurd ⟨t, h, hp⟩ hex
+        · omega
+      subst this
+      refine ⟨t, by omega, hp, ?_⟩
+      intro u hu hpu
+      by_cases e : u = t
+      · subst e; exact Nat.le_refl _
+      · exact absurd ⟨u, by omega, hpu⟩ hex
+
+/-- any number of threads: delegates may call other wrappers as long as every nested call goes UP a fixed order of the
+wrappers (receiver < other) -/
+theorem not_deadlocked_ordered {n : Nat} {s : State D R} (inv : NInv n s) (hn2 : 2 ≤ n) :
+    deadlocked n s = false := by
+  have hord : ∀ t, ∀ c ∈ (s.th t).todo, ∀ o, c.snapshot = false → c.operand = some o → c.recv < o := by
+    intro t c hc o h1 h2
+    rcases (inv.ok t c hc).2 o h1 h2 with h | h
+    · exact h
+    · omega
+  cases hd : deadlocked n s
+  · rfl
+  · exfalso
+    simp only [deadlocked, Bool.and_eq_true, List.any_eq_true, List.all_eq_true, List.mem_range] at hd
+    obtain ⟨⟨t, htn, hunf⟩, hall⟩ := hd
+    simp only [unfinished, Bool.not_eq_true', List.isEmpty_eq_false_iff] at hunf
+    obtain ⟨c, rest, htodo⟩ := List.exists_cons_of_ne_nil hunf
+    have blockedOf : ∀ u, u < n → step s u = none := by
+      intro u hu; have := hall u hu; simpa only [blocked, Option.isNone_iff_eq_none] using this
+    obtain ⟨m, h, hown, _⟩ := blocked_waits htodo (blockedOf t htn)
+    -- `h` holds `m`, is blocked, hence stuck in a nested call on receiver `m`; among all such holders take the one
+    -- with the largest receiver
+    have hhn : h < n := by obtain ⟨c', rest', hh⟩ := inv.owner m h hown; exact unfinished_lt inv hh.1
+    let recvOf : Nat → Nat := fun u => match (s.th u).todo with | c :: _ => c.recv | [] => 0
+    obtain ⟨h0, hh0n, ⟨m0, hown0⟩, hmax⟩ := exists_max_lt n recvOf (fun u => ∃ m, s.holder m = some u ∧
+        ∃ c rest, (s.th u).todo = c :: rest ∧ c.recv = m) ⟨h, hhn, m, hown, by
+          obtain ⟨c1, rest1, o, h', h1, hrecv, _⟩ := holder_stuck inv hown (blockedOf h hhn)
+          exact ⟨c1, rest1, h1, hrecv⟩⟩
+    obtain ⟨hown0, c0, rest0, ht0, hr0⟩ := hown0
+    obtain ⟨c1, rest1, o, h', h1, hrecv, hnest, hop, hne, hown'⟩ := holder_stuck inv hown0 (blockedOf h0 hh0n)
+    have hh'n : h' < n := by obtain ⟨c', rest', hh⟩ := inv.owner o h' hown'; exact unfinished_lt inv hh.1
+    obtain ⟨c2, rest2, o2, h2, h21, hrecv2, _⟩ := holder_stuck inv hown' (blockedOf h' hh'n)
+    have hle := hmax h' hh'n ⟨o, hown', c2, rest2, h21, hrecv2⟩
+    have hlt : c1.recv < o := hord h0 c1 (by rw [h1]; exact List.mem_cons_self) o hnest.1 hop
+    simp only [recvOf, h21, h1] at hle
+    rw [hrecv2] at hle
+    omega
+
 /-! ### linearizability of the live protocol, for arbitrary (also wrapper, also self) operands -/
 
 /-- a call of the live protocol as lock.go with hooks/C13-fix2.patch makes it (T-tie table) -/
 def Good (c : Call D R) : Prop := Live c ∧ c.locked = true ∧ c.opLocked = true
+
+/-- the thread carries an operand snapshot it has not used up yet -/
+def HasSnap (pc : Pc) : Prop := pc = .snapHeld ∨ pc = .snapped ∨ pc = .held 0 ∨ pc = .readDone
+
+/-- snapshot semantics of the operands in a log: the snapshot used by every linearised call with a wrapper
+operand `o` is the data of `o` after a PREFIX of `o`'s own linearised history — the first `opAt` calls on `o`, all of
+which precede the call itself in the log -/
+inductive SnapOk (d0 : Nat → D) : List (Entry D R) → Prop where
+  | nil : SnapOk d0 []
+  | snoc (log : List (Entry D R)) (e : Entry D R) : SnapOk d0 log →
+      (∀ o, e.call.operand = some o → e.opAt ≤ (onRecv o log).length ∧ Lin (d0 o) ((onRecv o log).take e.opAt) e.op) →
+      SnapOk d0 (log ++ [e])
+
+theorem onRecv_append (m : Nat) (a b : List (Entry D R)) : onRecv m (a ++ b) = onRecv m a ++ onRecv m b := by
+  simp [onRecv, List.filter_append]
+
+theorem take_onRecv_snoc (m : Nat) (log : List (Entry D R)) (e : Entry D R) {k : Nat} (h : k ≤ (onRecv m log).length) :
+    (onRecv m (log ++ [e])).take k = (onRecv m log).take k := by
+  rw [onRecv_append, List.take_append_of_le_length h]
 
 structure LinInv (d0 : Nat → D) (progs : Nat → List (Call D R)) (s : State D R) : Prop where
   good : ∀ t, ∀ c ∈ (s.th t).todo, Good c
@@ -380,6 +869,10 @@ structure LinInv (d0 : Nat → D) (progs : Nat → List (Call D R)) (s : State D
   lin : ∀ m, Lin (d0 m) (onRecv m s.log) (s.data m)
   order : ∀ t, (mine t s.log).map (·.call) ++ pending s t = progs t
   res : ∀ t, (s.th t).res = (mine t s.log).map (·.r)
+  /-- the snapshot a thread carries is the operand's data after a prefix of the operand's linearised history -/
+  tsnap : ∀ t c rest o, (s.th t).todo = c :: rest → HasSnap (s.th t).pc → c.operand = some o →
+    (s.th t).opAt ≤ (onRecv o s.log).length ∧ Lin (d0 o) ((onRecv o s.log).take (s.th t).opAt) (s.th t).opLoc
+  esnap : SnapOk d0 s.log
 
 theorem linInv_init (d0 : Nat → D) (dflt : D) (progs : Nat → List (Call D R))
     (h : ∀ t, ∀ c ∈ progs t, Good c) : LinInv d0 progs (init d0 dflt progs) where
@@ -391,6 +884,8 @@ theorem linInv_init (d0 : Nat → D) (dflt : D) (progs : Nat → List (Call D R)
   lin := fun m => rfl
   order := fun t => by simp [init, mine, pending]
   res := fun t => by simp [init, mine]
+  tsnap := fun t c rest o _ hb => by simp [init, HasSnap] at hb
+  esnap := SnapOk.nil
 
 /-- rebuild the invariant after a step of thread `t` that touches neither data nor log -/
 theorem linInv_frame {d0 : Nat → D} {progs : Nat → List (Call D R)} {s : State D R} {t : Nat}
@@ -401,9 +896,11 @@ theorem linInv_frame {d0 : Nat → D} {progs : Nat → List (Call D R)} {s : Sta
     (hothers : ∀ m t', t' ≠ t → s.holder m = some t' → h' m = some t')
     (hholds : ∀ c1 rest1, T'.todo = c1 :: rest1 → InBody T'.pc → h' c1.recv = some t)
     (hsnap : ∀ c1 rest1, T'.todo = c1 :: rest1 → T'.pc = .snapHeld → ∃ o, c1.operand = some o ∧ h' o = some t ∧ T'.opLoc = s.data o)
-    (hfresh : ∀ c1 rest1, T'.todo = c1 :: rest1 → T'.pc = .readDone → T'.loc = s.data c1.recv) :
+    (hfresh : ∀ c1 rest1, T'.todo = c1 :: rest1 → T'.pc = .readDone → T'.loc = s.data c1.recv)
+    (htsnap : ∀ c1 rest1 o, T'.todo = c1 :: rest1 → HasSnap T'.pc → c1.operand = some o →
+      T'.opAt ≤ (onRecv o s.log).length ∧ Lin (d0 o) ((onRecv o s.log).take T'.opAt) T'.opLoc) :
     LinInv d0 progs { holder := h', data := s.data, th := upd s.th t T', log := s.log } := by
-  refine ⟨?_, ?_, ?_, ?_, ?_, inv.lin, ?_, ?_⟩
+  refine ⟨?_, ?_, ?_, ?_, ?_, inv.lin, ?_, ?_, ?_, inv.esnap⟩
   · intro t' c' hc'
     by_cases e : t' = t
     · subst e; simp only [upd_same] at hc'; exact inv.good t' c' (hsub c' hc')
@@ -439,16 +936,21 @@ theorem linInv_frame {d0 : Nat → D} {progs : Nat → List (Call D R)} {s : Sta
     by_cases e : t' = t
     · subst e; simp only [upd_same]; rw [hres]; exact inv.res t'
     · simp only [upd_other _ _ e]; exact inv.res t'
+  · intro t' c1 rest1 o h1 h2 h3
+    by_cases e : t' = t
+    · subst e; simp only [upd_same] at h1 h2 ⊢; exact htsnap c1 rest1 o h1 h2 h3
+    · simp only [upd_other _ _ e] at h1 h2 ⊢; exact inv.tsnap t' c1 rest1 o h1 h2 h3
 
 theorem linInv_acquire {d0 : Nat → D} {progs : Nat → List (Call D R)} {s s' : State D R} {t : Nat}
     {c : Call D R} {rest : List (Call D R)} (inv : LinInv d0 progs s) (htodo : (s.th t).todo = c :: rest)
     (hpc : (s.th t).pc = .start ∨ (s.th t).pc = .snapped)
+    (hsnapNone : (s.th t).pc = .start → c.snapTarget = none)
     (hs : acquireRecv s t (s.th t) c = some s') : LinInv d0 progs s' := by
   obtain ⟨hlive, hl, hol⟩ := inv.good t c (by rw [htodo]; exact List.mem_cons_self)
   have hpend : (s.th t).todo = pending s t := by
     rcases hpc with h | h <;> simp [pending, h]
   rcases acquireRecv_some hs with ⟨_, hfree, rfl⟩ | ⟨hl', _⟩
-  · refine linInv_frame inv _ _ (fun c' hc' => hc') (by simp [OkPc, hlive.rounds]) ?_ rfl ?_ ?_ ?_ ?_
+  · refine linInv_frame inv _ _ (fun c' hc' => hc') (by simp [OkPc, hlive.rounds]) ?_ rfl ?_ ?_ ?_ ?_ ?_
     · simp only [hlive.rounds]; exact hpend
     · intro m t' hne hm
       have : m ≠ c.recv := fun e => by rw [e, hfree] at hm; cases hm
@@ -457,6 +959,14 @@ theorem linInv_acquire {d0 : Nat → D} {progs : Nat → List (Call D R)} {s s' 
       simp only [htodo] at h1; injection h1 with hc _; subst hc; simp
     · intro c1 rest1 _ h2; simp [hlive.rounds] at h2
     · intro c1 rest1 _ h2; simp [hlive.rounds] at h2
+    · intro c1 rest1 o h1 _ h3
+      simp only [htodo] at h1; injection h1 with hc _; subst hc
+      rcases hpc with hp | hp
+      · -- from `start` the receiver is only locked directly when there is no wrapper operand
+        exfalso
+        have hst := hsnapNone hp
+        rw [hlive.snapTarget, h3] at hst; cases hst
+      · exact inv.tsnap t c rest o htodo (by simp [HasSnap, hp]) h3
   · rw [hl] at hl'; cases hl'
 
 theorem linInv_step {d0 : Nat → D} {progs : Nat → List (Call D R)} {s s' : State D R} {t : Nat}
@@ -479,7 +989,7 @@ theorem linInv_step {d0 : Nat → D} {progs : Nat → List (Call D R)} {s s' : S
         · rename_i hfree
           have hs := Option.some.inj hs
           subst hs
-          refine linInv_frame inv _ _ (fun c' hc' => hc') (by simp [OkPc]) (by simp [pending, hpc]) rfl ?_ ?_ ?_ ?_
+          refine linInv_frame inv _ _ (fun c' hc' => hc') (by simp [OkPc]) (by simp [pending, hpc]) rfl ?_ ?_ ?_ ?_ ?_
           · intro m t' hne hm
             have : m ≠ o := fun e => by rw [e, hfree] at hm; cases hm
             simpa only [upd_other _ _ this] using hm
@@ -488,8 +998,14 @@ theorem linInv_step {d0 : Nat → D} {progs : Nat → List (Call D R)} {s s' : S
             simp only [htodo] at h1; injection h1 with hc _; subst hc
             exact ⟨o, hop, by simp, rfl⟩
           · intro c1 rest1 _ h2; simp at h2
+          · -- the snapshot point: the operand's data is the result of its whole linearised history so far
+            intro c1 rest1 o1 h1 _ h3
+            simp only [htodo] at h1; injection h1 with hc _; subst hc
+            rw [hop] at h3; cases h3
+            exact ⟨Nat.le_refl _, by rw [List.take_length]; exact inv.lin o⟩
         · cases hs
-      · exact linInv_acquire inv htodo (Or.inl hpc) hs
+      · rename_i hsn
+        exact linInv_acquire inv htodo (Or.inl hpc) (fun _ => hsn) hs
     · -- snapHeld: release the operand
       rename_i hpc
       obtain ⟨o', ho1, ho2, ho3⟩ := inv.snap t c rest htodo hpc
@@ -498,16 +1014,18 @@ theorem linInv_step {d0 : Nat → D} {progs : Nat → List (Call D R)} {s s' : S
       simp only [hol, if_true] at hs
       have hs := Option.some.inj hs
       subst hs
-      refine linInv_frame inv _ _ (fun c' hc' => hc') (by simp [OkPc]) (by simp [pending, hpc]) rfl ?_ ?_ ?_ ?_
+      refine linInv_frame inv _ _ (fun c' hc' => hc') (by simp [OkPc]) (by simp [pending, hpc]) rfl ?_ ?_ ?_ ?_ ?_
       · intro m t' hne hm
         have : m ≠ o' := fun e => by rw [e, ho2] at hm; exact hne (Option.some.inj hm).symm
         simpa only [upd_other _ _ this] using hm
       · intro c1 rest1 _ h2; simp [InBody] at h2
       · intro c1 rest1 _ h2; simp at h2
       · intro c1 rest1 _ h2; simp at h2
+      · intro c1 rest1 o1 h1 _ h3
+        exact inv.tsnap t c1 rest1 o1 h1 (by simp [HasSnap, hpc]) h3
     · -- snapped
       rename_i hpc
-      exact linInv_acquire inv htodo (Or.inr hpc) hs
+      exact linInv_acquire inv htodo (Or.inr hpc) (fun h => by rw [hpc] at h; cases h) hs
     · -- held (k+1): not a state of the live protocol
       rename_i k hpc
       rcases inv.pcs t with h | h | h | h | h | h <;> rw [hpc] at h <;> first | cases h | (injection h with h; omega)
@@ -519,19 +1037,21 @@ theorem linInv_step {d0 : Nat → D} {progs : Nat → List (Call D R)} {s s' : S
       have hs := Option.some.inj hs
       subst hs
       have hh := inv.holds t c rest htodo (Or.inl hpc)
-      refine linInv_frame inv _ _ (fun c' hc' => hc') (by simp [OkPc]) (by simp [pending, hpc]) rfl (fun m t' _ hm => hm) ?_ ?_ ?_
+      refine linInv_frame inv _ _ (fun c' hc' => hc') (by simp [OkPc]) (by simp [pending, hpc]) rfl (fun m t' _ hm => hm) ?_ ?_ ?_ ?_
       · intro c1 rest1 h1 _
         simp only [htodo] at h1; injection h1 with hc _; subst hc; exact hh
       · intro c1 rest1 _ h2; simp at h2
       · intro c1 rest1 h1 _
         simp only [htodo] at h1; injection h1 with hc _; subst hc; rfl
+      · intro c1 rest1 o1 h1 _ h3
+        exact inv.tsnap t c1 rest1 o1 h1 (by simp [HasSnap, hpc]) h3
     · -- readDone: write the receiver
       rename_i hpc
       have hs := Option.some.inj hs
       subst hs
       have hh := inv.holds t c rest htodo (Or.inr (Or.inl hpc))
       have hfresh := inv.fresh t c rest htodo hpc
-      refine ⟨?_, ?_, ?_, ?_, ?_, ?_, ?_, ?_⟩
+      refine ⟨?_, ?_, ?_, ?_, ?_, ?_, ?_, ?_, ?_, ?_⟩
       · intro t' c' hc'
         by_cases e : t' = t
         · subst e; simp only [upd_same] at hc'; exact inv.good t' c' hc'
@@ -562,15 +1082,15 @@ theorem linInv_step {d0 : Nat → D} {progs : Nat → List (Call D R)} {s s' : S
       · intro m
         by_cases em : m = c.recv
         · subst em
-          show Lin (d0 c.recv) (onRecv c.recv (s.log ++ [{ tid := t, call := c, op := (s.th t).opLoc, r := (c.f (s.th t).loc (s.th t).opLoc).2 }]))
+          show Lin (d0 c.recv) (onRecv c.recv (s.log ++ [{ tid := t, call := c, op := (s.th t).opLoc, opAt := (s.th t).opAt, r := (c.f (s.th t).loc (s.th t).opLoc).2 }]))
             (upd s.data c.recv (c.f (s.th t).loc (s.th t).opLoc).1 c.recv)
           rw [onRecv_snoc_same c.recv s.log _ rfl]
           simp only [upd_same]
-          have := lin_snoc (d := d0 c.recv) { tid := t, call := c, op := (s.th t).opLoc, r := (c.f (s.th t).loc (s.th t).opLoc).2 }
+          have := lin_snoc (d := d0 c.recv) { tid := t, call := c, op := (s.th t).opLoc, opAt := (s.th t).opAt, r := (c.f (s.th t).loc (s.th t).opLoc).2 }
             (inv.lin c.recv) (by simp only [hfresh])
           simp only [hfresh] at this ⊢
           exact this
-        · show Lin (d0 m) (onRecv m (s.log ++ [{ tid := t, call := c, op := (s.th t).opLoc, r := (c.f (s.th t).loc (s.th t).opLoc).2 }]))
+        · show Lin (d0 m) (onRecv m (s.log ++ [{ tid := t, call := c, op := (s.th t).opLoc, opAt := (s.th t).opAt, r := (c.f (s.th t).loc (s.th t).opLoc).2 }]))
             (upd s.data c.recv (c.f (s.th t).loc (s.th t).opLoc).1 m)
           rw [onRecv_snoc_other m s.log _ (fun h => em h.symm)]
           simp only [upd_other _ _ em]
@@ -596,6 +1116,19 @@ theorem linInv_step {d0 : Nat → D} {progs : Nat → List (Call D R)} {s s' : S
         · simp only [upd_other _ _ e]
           rw [mine_snoc_other t' s.log _ (fun h => e h.symm)]
           exact inv.res t'
+      · -- snapshots carried by other threads: the history of their operand only grew at the end
+        intro t' c1 rest1 o1 h1 h2 h3
+        by_cases e : t' = t
+        · subst e; simp [upd_same, HasSnap] at h2
+        · simp only [upd_other _ _ e] at h1 h2 ⊢
+          obtain ⟨hle, hlin⟩ := inv.tsnap t' c1 rest1 o1 h1 h2 h3
+          refine ⟨Nat.le_trans hle (by rw [onRecv_append]; simp), ?_⟩
+          show Lin (d0 o1) ((onRecv o1 (s.log ++ [_])).take (s.th t').opAt) (s.th t').opLoc
+          rw [take_onRecv_snoc o1 s.log _ hle]; exact hlin
+      · -- the call being linearised used a snapshot taken at a prefix of its operand's history
+        refine SnapOk.snoc s.log _ inv.esnap ?_
+        intro o1 h3
+        exact inv.tsnap t c rest o1 htodo (by simp [HasSnap, hpc]) h3
     · -- written: release the receiver, next call
       rename_i hpc
       simp only [hl, if_true] at hs
@@ -603,13 +1136,14 @@ theorem linInv_step {d0 : Nat → D} {progs : Nat → List (Call D R)} {s s' : S
       subst hs
       have hh := inv.holds t c rest htodo (Or.inr (Or.inr hpc))
       refine linInv_frame inv _ _ (fun c' hc' => by rw [htodo]; exact List.mem_cons_of_mem _ hc') (by simp [OkPc])
-        (by simp [pending, hpc, htodo]) rfl ?_ ?_ ?_ ?_
+        (by simp [pending, hpc, htodo]) rfl ?_ ?_ ?_ ?_ ?_
       · intro m t' hne hm
         have : m ≠ c.recv := fun e => by rw [e, hh] at hm; exact hne (Option.some.inj hm).symm
         simpa only [upd_other _ _ this] using hm
       · intro c1 rest1 _ h2; simp [InBody] at h2
       · intro c1 rest1 _ h2; simp at h2
       · intro c1 rest1 _ h2; simp at h2
+      · intro c1 rest1 o1 _ h2 _; simp [HasSnap] at h2
 
 theorem linInv_reach {d0 : Nat → D} {dflt : D} {progs : Nat → List (Call D R)}
     (h : ∀ t, ∀ c ∈ progs t, Good c) {s : State D R} (hr : Reach (init d0 dflt progs) s) :
